@@ -835,10 +835,56 @@ with crun_sub (o : coparser) (x : xst) {struct o} : sres * xst :=
 End Interp.
 
 (* ------------------------------------------------------------------ run_inner of the autocomplete build *)
-(* State::construct with `Args::set_comp(rev)`: a trailing `--` stays available so that it can be completed *)
-Definition c_initial_state (o : coparser) (name : option bytes) (argv : list bytes) (rev : option nat)
+(* ArgScanner::check_next (src/complete_run.rs): an item `--bpaf-complete-rev=N` left of `--` is removed from the line
+   and switches completion on (the last valid N wins; a value that is not a number is removed all the same).  The
+   `--bpaf-complete-style-*` items, which print a script and end the process, are not modelled. *)
+Definition marker_prefix : bytes :=
+  [45;45;98;112;97;102;45;99;111;109;112;108;101;116;101;45;114;101;118;61]%N.   (* --bpaf-complete-rev= *)
+Fixpoint strip_prefix (p s : bytes) : option bytes :=
+  match p, s with
+  | [], _ => Some s
+  | a :: p', b :: s' => if (a =? b)%N then strip_prefix p' s' else None
+  | _ :: _, [] => None
+  end.
+Definition usize_max : Z := 18446744073709551615%Z.
+(* Some (Some n): a marker naming revision n (every n above 9 is an unsupported revision: 10 stands for them);
+   Some None: a marker without a number; None: not a marker *)
+Definition marker_rev (w : bytes) : option (option nat) :=
+  if utf8_valid w then
+    match strip_prefix marker_prefix w with
+    | Some ver =>
+      Some (match parse_int false 0%Z usize_max ver with
+            | inl z => Some (if (9 <? z)%Z then 10 else Z.to_nat z)
+            | inr _ => None
+            end)
+    | None => None
+    end
+  else None.
+Definition word_ambiguous (sf sa : list char) (w : bytes) : bool :=
+  is_some (t_ambiguity (tokenize sf sa [w])).
+(* the words the tokenizer sees, and the revision: scanning ends at `--` and at an ambiguous cluster (the loop of
+   State::construct breaks there) *)
+Fixpoint scan_markers (sf sa : list char) (argv : list bytes) (rev : option nat) : list bytes * option nat :=
+  match argv with
+  | [] => ([], rev)
+  | w :: t =>
+    if beqb w dashdash then (argv, rev)
+    else
+      match marker_rev w with
+      | Some (Some n) => scan_markers sf sa t (Some n)
+      | Some None => scan_markers sf sa t rev
+      | None =>
+        if word_ambiguous sf sa w then (argv, rev)
+        else let '(r, k) := scan_markers sf sa t rev in (w :: r, k)
+      end
+  end.
+
+(* State::construct with `Args::set_comp(rev)` and / or markers on the line: a trailing `--` stays available so
+   that it can be completed *)
+Definition c_initial_state (o : coparser) (name : option bytes) (argv0 : list bytes) (rev0 : option nat)
   : xst * option (nat * bytes) :=
   let '(sf, sa) := short_tables (erase_o o) in
+  let '(argv, rev) := scan_markers sf sa argv0 rev0 in
   let '(st, amb) := construct sf sa name argv in
   match rev with
   | None => ((st, None), amb)
@@ -858,7 +904,7 @@ Definition c_initial_state (o : coparser) (name : option bytes) (argv : list byt
 Definition c_run_inner_state (feat : features) (env : bytes -> option bytes) (o : coparser)
            (name : option bytes) (argv : list bytes) (rev : option nat) : sres * xst :=
   let '(x, amb) := c_initial_state o name argv rev in
-  match amb, rev with
+  match amb, snd x with
   | Some (ix, short), None =>
     (SFail (FStderr (MsgAmbiguity ix short)
                     (render_message (MsgAmbiguity ix short) (fst x) (ometa_of (erase_o o)))), x)
